@@ -471,6 +471,11 @@ def build_archives(root):
     d = bytearray(arch.make_archive(m3, "copy+aes", password=PW))
     d[32 + 32 + 3] ^= 0x10
     put("DMGE", bytes(d), dict(m3), password=PW, damaged="b.bin", packed_damaged=True)
+    # DMGEM: two copy+aes folders (two packed streams with digests), a ciphertext byte of the FIRST one flipped: the damaged
+    # packed stream is followed by an intact one
+    d = bytearray(arch.make_archive(mm, "copy+aes", password=PW, sessions=[(s2, "copy+aes")]))
+    d[32 + 3] ^= 0x10
+    put("DMGEM", bytes(d), dict(mm + s2), password=PW, damaged="a.txt", packed_damaged=True)
     return out
 
 
